@@ -155,7 +155,41 @@ def rule_r3(ctx):
                     ctx.fail(r, f, "queue jump on %s" % a0, s.line, "a waiting sender/receiver is inserted ahead of the others")
 
 
+def rule_r4(ctx):
+    r = ctx.rule("C08.R4", "T1", "only the attached peer's teardown touches the pairing: in pairN_pipe_stop / pairN_pipe_close every "
+                 "store to the socket record and every raise/clear of the socket's pollables is dominated by the edge s->p == p "
+                 "(a peer that was refused with NNG_EBUSY is stopped too, and must leave the live pairing alone)", floor=6)
+    prog = ctx.prog
+    for file, rec, fns in (("pair0/pair.c", "pair0_sock", ("pair0_pipe_stop", "pair0_pipe_close")),
+                           ("pair1/pair.c", "pair1_sock", ("pair1_pipe_stop", "pair1_pipe_close"))):
+        for name in fns:
+            f = prog.fn(name, file)
+            if f is None or f.cfg_failed:
+                continue
+            mine = {}
+            for bid, k, atom, val in G.edge_facts(f):
+                if atom.get("k") == "bin" and atom["op"] in ("==", "!=") and ((atom["op"] == "==") == val) and \
+                        any(x.get("k") == "mem" and x["f"] == "p" and x.get("rec") == rec for x in (atom["lhs"], atom["rhs"])):
+                    mine[bid] = k
+            sinks = [s for s in f.assigns() if s.node["lhs"].get("k") == "mem" and s.node["lhs"].get("rec") == rec]
+            sinks += [s for s in f.calls(("nni_pollable_clear", "nni_pollable_raise"))]
+            for s in sinks:
+                what = show(s.node["lhs"]) if s.node.get("k") == "asg" else "%s(%s)" % (s.node["fn"], show(f.expand(s.node["args"][0])))
+                if mine and G.dominated(f, (s.b, s.i), mine):
+                    r.ob(f, "%s only when this pipe is the attached peer" % what)
+                else:
+                    ctx.fail(r, f, "socket state changed by a pipe that is not the attached peer", s.line,
+                             "%s at line %s runs for any stopping pipe, including one refused with NNG_EBUSY: the live pairing "
+                             "loses its pending message / readiness" % (what, s.line))
+
+
 def run(ctx):
     ctx.guard(rule_r1)
     ctx.guard(rule_r2)
     ctx.guard(rule_r3)
+    ctx.guard(rule_r4)
+    from . import c09
+    ctx.guard(c09.rule_r8)
+    for rr in ctx.rules:
+        if rr.id == "C09.R8":
+            rr.id = "C08.R5"
